@@ -3,6 +3,7 @@ package props
 import (
 	"astverif/layout"
 	"astverif/lin"
+	"astverif/ownership"
 
 	"golang.org/x/tools/go/ssa"
 )
@@ -80,6 +81,8 @@ func c11(c *Ctx) {
 	ck := layout.NewBits(c.P)
 	pairs := c11Pairs(c)
 	ck.A3(r, pairs)
+	// A4: the parsers against reference encodings transcribed from the standard (independent of the writer)
+	ck.A3(r, c11SpecPairs(c))
 	var fs []*ssa.Function
 	for _, n := range []string{"parsePacket", "parsePacketHeader", "parsePacketAdaptationField", "parsePCR", "writePacket", "writePacketHeader", "writePacketAdaptationField", "writePacketAdaptationFieldExtension", "writePCR"} {
 		fs = append(fs, c.fn(n))
@@ -88,6 +91,9 @@ func c11(c *Ctx) {
 	for _, d := range ck.IP.Diag {
 		r.Unknown("A0", "diag/"+d, "", d)
 	}
+	// a packet obtained from NextPacket stays what it was when the next one is read (re-emission is byte-identical only
+	// if nothing in it aliases the reused read buffer): the ownership rule S3 of C16 on every byte-slice source
+	r.Floor("S3", "borrowed/owned byte-slice source sites", ownership.BorrowTaint(c.P, r), 10)
 	// lengths announced = bytes emitted after them (linear engine)
 	lk := layout.New(c.P)
 	lk.A2(r, packetPairs(c)[:2])
